@@ -5,6 +5,8 @@
 //!                     [Memory(2..=3), Disk] and [Memory(1..=2), Memory(8), Disk],
 //!                     every eviction policy, promotion strategy and hook set,
 //!                     interleaved with faults on the disk layer's value files
+//!   byte-budget-growth  histories of 10..=40 operations, mostly puts of 4..=400 bytes over <= 6
+//!                     keys, on [Memory(8 entries, 64/160/320 bytes), Disk]
 //!   short-histories   every sequence of up to N operations from a 10-letter
 //!                     alphabet on one hot key (+2 filler keys), both layouts
 //! Oracle: model.rs (hard clauses H1..H6, latest-value clause L1).
@@ -327,8 +329,43 @@ fn case_s() -> BoxedStrategy<Case> {
         prop_oneof![1 => Just(1usize), 3 => Just(2usize), 4 => Just(3usize), 3 => Just(4usize), 1 => Just(5usize), 1 => Just(6usize)],
         any::<u64>(),
         proptest::collection::vec(op_s(), 1..=30),
+        prop_oneof![5 => Just(None), 1 => Just(Some(30u32)), 1 => Just(Some(64u32)), 1 => Just(Some(320u32)), 1 => Just(Some(7000u32))],
     )
-        .prop_map(|(layout, policy, strat, hooks, key_style, pool, content_seed, ops)| Case { layout, policy, strat, hooks, key_style, pool, content_seed, ops })
+        .prop_map(|(layout, policy, strat, hooks, key_style, pool, content_seed, ops, l0_bytes)| Case { layout, policy, strat, hooks, key_style, pool, content_seed, ops, l0_bytes })
+        .boxed()
+}
+
+/// [Memory(8 entries, byte budget), Disk]: the count limit is never reached with <= 6 keys, the
+/// byte budget is; mostly puts of 4..=120 bytes, so entries grow and shrink in place.
+fn budget_case_s() -> BoxedStrategy<Case> {
+    let len = prop_oneof![4 => 4usize..=24, 3 => 25usize..=60, 2 => 61usize..=120, 1 => 121usize..=400];
+    let op = prop_oneof![
+        12 => (0usize..6, len.clone()).prop_map(|(k, len)| Op::Put { k, len }),
+        2 => (0usize..6, len.clone()).prop_map(|(k, len)| Op::PutTtl { k, len, zero: false }),
+        2 => (0usize..6, len).prop_map(|(k, len)| Op::PutValidated { k, len, wrong: false }),
+        4 => (0usize..6, Just(false)).prop_map(|(k, probe)| Op::Get { k, probe }),
+        1 => (0usize..6, 1u8..2).prop_map(|(k, from)| Op::Promote { k, from, to: 0 }),
+        1 => (0usize..6).prop_map(|k| Op::Remove { k }),
+    ];
+    (
+        prop_oneof![3 => Just(Pol::Lru), 2 => Just(Pol::Lfu), 2 => Just(Pol::Fifo), 2 => Just(Pol::Random)],
+        prop_oneof![2 => Just(Hooks::Md5), 1 => Just(Hooks::None)],
+        prop_oneof![1 => Just(4usize), 2 => Just(6usize)],
+        any::<u64>(),
+        proptest::collection::vec(op, 10..=40),
+        prop_oneof![1 => Just(64u32), 2 => Just(160u32), 1 => Just(320u32)],
+    )
+        .prop_map(|(policy, hooks, pool, content_seed, ops, l0)| Case {
+            layout: Layout::MemDisk { l0_max: 8 },
+            policy,
+            strat: Strat::OnHit,
+            hooks,
+            key_style: 0,
+            pool,
+            content_seed,
+            ops,
+            l0_bytes: Some(l0),
+        })
         .boxed()
 }
 
@@ -362,7 +399,7 @@ fn short_histories(max_len: usize, seed: u64) -> impl Iterator<Item = Case> + Se
                     ops.push(a[x % m].clone());
                     x /= m;
                 }
-                Case { layout, policy: Pol::Lru, strat: Strat::OnHit, hooks: Hooks::Md5, key_style: 0, pool: 3, content_seed: seed ^ (n as u64) << 40, ops }
+                Case { layout, policy: Pol::Lru, strat: Strat::OnHit, hooks: Hooks::Md5, key_style: 0, pool: 3, content_seed: seed ^ (n as u64) << 40, ops, l0_bytes: None }
             })
         })
     })
@@ -396,6 +433,15 @@ fn main() {
 
     let k1 = known.clone();
     ck.run(Section::pbt("layered-history", tier.pick(3000, 150_000), case_s, move |c: &Case| supervised(c, &k1)).shards(16).shrink_iters(1500));
+
+    // First layer limited by bytes, not by count: puts that grow an entry the layer already holds
+    // and thereby force other entries out.
+    let k3 = known.clone();
+    ck.run(
+        Section::pbt("byte-budget-growth", tier.pick(2500, 100_000), budget_case_s, move |c: &Case| supervised(c, &k3))
+            .shards(16)
+            .shrink_iters(1500),
+    );
 
     let k2 = known.clone();
     let max_len = tier.pick(4usize, 5usize);
